@@ -463,6 +463,8 @@ def plain_value(draw, ctx, allow_nonnumeric=True, symbolic=None):
         return F1(A.Num("float", draw(st.sampled_from(["0.0", "0e0", "0.00", "00.0"]))), draw(st.sampled_from(["", "-", "-"])))     # signed zeros
     if k == "num":
         return draw(num_expr(ctx))
+    if k == "int" and draw(st.integers(0, 24)) == 0:
+        return F1(A.Num("int", str(draw(st.integers(2 ** 63, 2 ** 72)))), draw(st.sampled_from(["", "-"])))   # beyond the 64-bit range
     if k == "int":
         return draw(int_expr(ctx))
     if k == "str":
@@ -600,6 +602,11 @@ def fresh_name(ctx):
 def scalar_decl(draw, ctx, symbolic=None):
     vtype = draw(st.sampled_from(["int", "float", "float", "complex", "bool", "str"]))
     name = _decl_name(draw, ctx)
+    if vtype in ("int", "float") and draw(st.integers(0, 24)) == 0:
+        # an integer literal beyond the 64-bit range as the whole initialiser (the variable is not referenced afterwards)
+        big = draw(st.one_of(st.integers(2 ** 63, 2 ** 64 + 5), st.integers(2 ** 64, 2 ** 80), st.just(2 ** 63)))
+        ctx.used.add(name)
+        return A.ScalarDecl(vtype, name, F1(A.Num("int", str(big)), draw(st.sampled_from(["", "-"]))))
     if vtype == "int":
         init = draw(int_expr(ctx))
     elif vtype == "float":
